@@ -101,7 +101,7 @@ def make_inputs(rnd, endpoint, n):
     good = f"GET {endpoint} HTTP/1.1\r\nHost: localhost\r\nAccept: */*\r\n\r\n".encode()
     out = []
     kinds = ["valid", "valid_min", "other_path", "other_method", "truncated", "truncated", "binary", "invalid_utf8", "huge", "header_flood", "frag1", "frag2", "empty",
-             "no_spaces", "only_crlf", "lf_only", "many_conn", "prefix_path", "query", "head", "post_body", "nul_bytes", "long_line", "foreign_bytes", "foreign_bytes"]
+             "no_spaces", "only_crlf", "lf_only", "many_conn", "prefix_path", "query", "head", "post_body", "nul_bytes", "long_line", "foreign_bytes", "foreign_bytes", "long_segment_cut", "long_segment_fragment", "long_segment_http2", "long_segment_tab"]
     for i in range(n):
         k = kinds[i % len(kinds)] if i < len(kinds) else rnd.choice(kinds)
         if k == "valid":
@@ -157,6 +157,12 @@ def make_inputs(rnd, endpoint, n):
             out.append((k, [f"GET {endpoint} HTTP/1.1\n\n".encode()], None))
         elif k == "many_conn":
             out.append((k, "MANY", None))
+        elif k.startswith("long_segment"):
+            # one long path segment (24 characters: what a probe's uuid or hash looks like) in requests that stop short, carry a
+            # fragment, name another protocol version or use a tab: nothing a parser may choke on
+            seg = "".join(rnd.choice("abcdefghijklmnopqrstuvwxyz0123456789-_") for _ in range(24))
+            tail = {"long_segment_cut": "", "long_segment_fragment": "#top HTTP/1.1\r\nHost: a\r\n\r\n", "long_segment_http2": " HTTP/2\r\nHost: a\r\n\r\n", "long_segment_tab": "\tHTTP/1.1\r\nHost: a\r\n\r\n"}[k]
+            out.append((k, [f"GET /probes/{seg}{tail}".encode()], None))
     rnd.shuffle(out)
     return out
 
@@ -320,6 +326,15 @@ async def scenario(case, out, stats, fps, samples, incon):
         stats["probes_ok"] += 1
         return True
 
+    beat = {"kind": None, "max": 0.0}
+
+    async def heartbeat():
+        while True:
+            c0 = time.thread_time()
+            await asyncio.sleep(0.005)
+            beat["max"] = max(beat["max"], time.thread_time() - c0)
+
+    hb = loop.create_task(heartbeat())
     inputs = make_inputs(rnd, endpoint, case["ninputs"])
     held = None
     held_task = None
@@ -356,7 +371,14 @@ async def scenario(case, out, stats, fps, samples, incon):
                 out.append(V("wrong_status", "many-connections", f"{n} concurrent GETs: {dict(codes)}, expected all {expected['code']}"))
         else:
             pause = 0.002 if kind == "frag1" else (0.03 if kind == "frag2" else 0.0)
+            beat["kind"], beat["max"] = kind, 0.0
             resp, how = await talk(port, chunks, pause=pause, read_timeout=5.0 if chunks else 0.3)
+            await asyncio.sleep(0.02)
+            stats["heartbeats"] += 1
+            if beat["max"] > 0.4 and sum(map(len, chunks)) < 4096:
+                # (CPU time the event-loop thread spent between two turns of a 5 ms heartbeat: one callback that computes for
+                # that long; a loaded machine cannot produce it, wall time is not involved)
+                out.append(V("processing_disturbed", kind + "/cpu-burn", f"{sum(map(len, chunks))} request bytes ({chunks[0][:48]!r}...) kept the worker's event loop thread computing for {beat['max']:.2f}s in one go: nothing else - jobs, probes, signals - ran meanwhile"))
             import hashlib
 
             fps.add(hashlib.sha1(b"|".join(chunks)[:4096] + str(len(chunks)).encode() + str(expected["code"]).encode()).hexdigest()[:12])
@@ -416,6 +438,7 @@ async def scenario(case, out, stats, fps, samples, incon):
         if resp is None or status_of(resp) != want:
             out.append(V("wrong_status", "while-lingering", f"with {[k for k, _, _ in lingering]} connections open GET {endpoint} -> {status_of(resp) if resp else how}, expected {want}"))
     # ---- end of the run: port closes
+    hb.cancel()
     stats["jobs_completed"] += done["ok"]
     if prod:
         prod.cancel()
